@@ -10,6 +10,13 @@ G  the same runs print each structure with its rendering; the harness joins the 
 V  seeded random wider grids (mixed separator styles per row, nested tables, random attribute
    maps and contents) are rendered by TLC (universe FILE), parsed by the real code and
    validated the same way.
+H  page histories / co-occurrence (universes PAIR, HIST): the cookie table of the inside-out
+   encoding is state of the page (ParserStruct.RunFrom / SaveValue).  TLC enumerates families of
+   constructs of one kind that are equal under some normalisation (line breaks / blanks at the
+   edges of arguments, case, underscore, entities, argument order ...), every ordered pair /
+   triple on one page, and histories start_page; parse()/expand(); parse() ... on one page.
+   The real parser must give every construct its own written argument lists (independence of
+   constructs); expected trees = TreeOf(text of that call), decided by Trace_ParserStruct.
 DRIFT: the real tree differs from the twin's tree (exact comparison) although the property holds.
 """
 from __future__ import annotations
@@ -84,26 +91,48 @@ def pipeline_job(jobs):
     out = []
     for universe, part, parts, known, tags_file, pages_file, inv in jobs:
         g = gen_one(universe, part, parts, known, tags_file, pages_file, inv)
-        cases = g.cases
-        summ = {"universe": universe, "gen": (g.distinct, g.generated, g.wall), "n": len(cases), "cov": {}, "shapes": set(),
+        # one unit = one parse() whose tree is judged.  In a history (HCASE) the units of one history
+        # run on ONE page (one start_page), in order, expand() steps in between are executed too.
+        cases = [dict(c, hist=None) for c in g.cases]
+        groups = [[i] for i in range(len(cases))]
+        for h in g.tagged("HCASE"):
+            grp = []
+            for k, st in enumerate(h["steps"]):
+                before = [[x["op"], ptree2.concretise(x["text"])] for x in h["steps"][:k]]
+                cases.append({"page": st["page"], "text": st["text"], "mt": st["mt"], "cov": st["cov"] if st["op"] == "parse" else [],
+                              "law": True, "hist": before, "op": st["op"]})
+                grp.append(len(cases) - 1)
+            groups.append(grp)
+        judged = [c for c in cases if c.get("op", "parse") == "parse"]
+        summ = {"universe": universe, "gen": (g.distinct, g.generated, g.wall), "n": len(judged), "cov": {}, "shapes": set(),
                 "trace": [0, 0, 0.0], "bad": [], "drift": 0, "drift_samples": [], "nolaw": [], "skipped": len(g.tagged("SKIP")),
                 "exceptions": [], "sample": None}
         items = []
         with Scratch("c03-") as d:
             ctx = ptree2.new_ctx(d)
             try:
-                for i, c in enumerate(cases):
-                    for label in c["cov"]:
-                        summ["cov"][label] = summ["cov"].get(label, 0) + 1
-                    if not c.get("law", True):
-                        summ["nolaw"].append(ptree2.concretise(c["text"]))
-                    text = ptree2.concretise(c["text"])
-                    try:
-                        t = ptree2.node(ptree2.parse(ctx, text))
-                    except Exception as e:  # noqa: BLE001
-                        summ["exceptions"].append({"text": text, "exception": repr(e), "page": c["page"]})
-                        continue
-                    items.append((i, c["page"], t))
+                for grp in groups:
+                    ctx.start_page("Pg")
+                    for i in grp:
+                        c = cases[i]
+                        for label in c["cov"]:
+                            summ["cov"][label] = summ["cov"].get(label, 0) + 1
+                        if not c.get("law", True):
+                            summ["nolaw"].append(ptree2.concretise(c["text"]))
+                        text = ptree2.concretise(c["text"])
+                        if c.get("op", "parse") == "expand":
+                            try:
+                                ctx.expand(text)      # only what it leaves behind on the page matters here
+                            except Exception as e:  # noqa: BLE001  (what expand() does is not this property's subject)
+                                summ["drift"] += 1
+                                summ["drift_samples"].append({"text": text, "twin": "expand() returns", "real": repr(e)})
+                            continue
+                        try:
+                            t = ptree2.node(ctx.parse(text))
+                        except Exception as e:  # noqa: BLE001
+                            summ["exceptions"].append({"text": text, "exception": repr(e), "page": c["page"], "history": c["hist"] or []})
+                            continue
+                        items.append((i, c["page"], t))
             finally:
                 ctx.db_conn.close()
         real = {i: t for i, _, t in items}
@@ -122,13 +151,16 @@ def pipeline_job(jobs):
                 b = bad[i]
                 summ["bad"].append({"text": text, "expected": ptree2.show(b["expected"]), "got": ptree2.show(t),
                                     "page": c["page"], "devs": sorted(b["devs"]),
-                                    "cls": classify(b["expected"], t, universe)})
+                                    "cls": classify(b["expected"], t, universe),
+                                    "history": c["hist"] or [], "note": diagnose(b["expected"], t, text, c["hist"])})
             elif t != c["mt"]:
                 summ["drift"] += 1
                 if len(summ["drift_samples"]) < 2:
                     summ["drift_samples"].append({"text": text, "twin": ptree2.show(c["mt"]), "real": ptree2.show(t)})
         if cases:
-            summ["sample"] = ptree2.concretise(cases[len(cases) // 2]["text"])
+            mid = cases[len(cases) // 2]
+            summ["sample"] = "; ".join(f"{op}({tx!r})" for op, tx in (mid["hist"] or []) + [[mid.get("op", "parse"), ptree2.concretise(mid["text"])]]) \
+                if mid["hist"] is not None else ptree2.concretise(mid["text"])
         out.append(summ)
     return out
 
@@ -165,11 +197,12 @@ def run_plan(o: Outcome, plan: list, known, tags_file: str, pages_file: str | No
         if s["nolaw"]:
             raise common.TLCError(f"{len(s['nolaw'])} random page(s) violate the model's own law, e.g. {s['nolaw'][0]!r}")
         for e in s["exceptions"]:
-            o.violation({"origin": origin, "universe": u, "text": e["text"], "page": e["page"]},
-                        f"parse({e['text']!r}) raised {e['exception']}", cls="exception")
+            o.violation({"origin": origin, "universe": u, "text": e["text"], "page": e["page"], "history": e.get("history", [])},
+                        f"parse({e['text']!r}){after(e.get('history'))} raised {e['exception']}", cls="exception")
         for b in s["bad"]:
-            case = {"origin": origin, "universe": u, "text": b["text"], "expected": b["expected"], "got": b["got"], "page": b["page"]}
-            o.classify(case, f"parse({b['text']!r}) does not have the written structure", b["devs"], cls=b["cls"])
+            case = {"origin": origin, "universe": u, "text": b["text"], "expected": b["expected"], "got": b["got"], "page": b["page"],
+                    "history": b["history"]}
+            o.classify(case, f"parse({b['text']!r}){after(b['history'])} does not have the written structure{b['note']}", b["devs"], cls=b["cls"])
         o.drift_count += max(0, s["drift"] - len(s["drift_samples"]))
         for dsm in s["drift_samples"]:
             o.note_drift(dsm)
@@ -186,6 +219,62 @@ def classify(exp, got, universe) -> str:
     if ek != gk:
         return f"{universe}:kinds -{','.join(sorted(set(ek) - set(gk)))} +{','.join(sorted(set(gk) - set(ek)))}"
     return f"{universe}:same-kinds"
+
+
+def after(history) -> str:
+    if not history:
+        return ""
+    return " after " + ", ".join(f"{op}({tx!r})" for op, tx in history) + " on the same page (no start_page in between)"
+
+
+CALL_KINDS = ("TEMPLATE", "TEMPLATE_ARG", "PARSER_FN", "LINK", "URL")
+
+
+def calls(t, out=None) -> list:
+    """(kind, largs) of the call / link nodes of an abstract tree in document order (messages only)."""
+    out = [] if out is None else out
+    if isinstance(t, list):
+        for x in t:
+            calls(x, out)
+    elif "s" not in t:
+        if t["kind"] in CALL_KINDS:
+            out.append((t["kind"], t["largs"]))
+        for a in t["largs"] + t["defn"] + [t["children"]]:
+            calls(a, out)
+    return out
+
+
+def argtext(largs) -> str:
+    return "|".join("".join(ptree2.concretise(x["s"]) if "s" in x else "<" + x["kind"] + ">" for x in a) for a in largs)
+
+
+def diagnose(exp, got, text, history) -> str:
+    """Words for the message of a case TLC has rejected (never part of a verdict): which construct
+    lost its written argument list, and whether it got the list of another construct of the page /
+    whether the same text parses differently on a fresh page."""
+    note = ""
+    ec, gc = calls(exp), calls(got)
+    if len(ec) == len(gc):
+        for i, ((ek, ea), (gk, ga)) in enumerate(zip(ec, gc)):
+            if ea != ga or ek != gk:
+                note = f": construct #{i + 1} is written {ek}({argtext(ea)!r}) but parsed as {gk}({argtext(ga)!r})"
+                other = [j for j, (k2, a2) in enumerate(ec) if j != i and a2 == ga]
+                if other:
+                    note += (f", the argument list written for construct #{other[0] + 1} of the same page "
+                             "(constructs that differ only slightly must not share one cookie of the inside-out encoding)")
+                break
+    if history:
+        try:
+            with Scratch("c03d-") as d:
+                ctx = ptree2.new_ctx(d)
+                fresh = ptree2.node(ptree2.parse(ctx, text))
+                ctx.db_conn.close()
+            if fresh != got:
+                note += ("; on a fresh page the same text parses differently: the result depends on what the page held before "
+                         "(cookie table of the page, independence of constructs)")
+        except Exception:  # noqa: BLE001
+            pass
+    return note
 
 
 # ---------------------------------------------------------------------------
@@ -335,17 +424,31 @@ def run(tier: str) -> int:
         pf.write_text(json.dumps(pages))
         grid = "GT" if thorough else "GQ"
         plan = [(grid, 48 if thorough else 10, "GenInv"), ("EL", 2, "GenInv"), ("CALL", 2, "GenInv"),
-                ("NEST", 2, "GenInv"), ("FILE", 16 if thorough else 4, "GenInvF")]
+                ("NEST", 2, "GenInv"), ("PAIR", 2, "GenInv"), ("HIST", 2, "GenInvH"),
+                ("FILE", 16 if thorough else 4, "GenInvF")]
+        import os  # TIMING-TOGGLE
+        if os.environ.get("C03_OLD"):  # TIMING-TOGGLE
+            plan = [x for x in plan if x[0] not in ("PAIR", "HIST")]  # TIMING-TOGGLE
         agg = run_plan(o, plan, known, tags_file, str(pf))
         o.extra["action_coverage"] = dict(sorted(agg["cov"].items()))
         o.extra["cases_per_universe"] = {u: a["n"] for u, a in agg["per"].items()}
         o.extra["random_pages_outside_the_preconditions"] = agg["per"].get("FILE", {}).get("skipped", 0)
-        # Demo: TLC itself finds the counterexample with the deviations switched on
-        demo = tlc("Gen_ParserStruct", "Demo_ParserStruct_asis.cfg", workers=1, check=False, env={"TAGS_FILE": tags_file})
-        o.add_tlc("Demo_ParserStruct_asis (counterexample expected)", demo)
-        o.extra["demo_asis_counterexample"] = bool(demo.invariant_violated)
-        if not demo.invariant_violated:
-            raise common.TLCError("Demo_ParserStruct_asis lost its counterexample")
+        # Demos: TLC itself finds the counterexample (a) with the deviations found in the repository switched
+        # on, (b) with a cookie key that is not injective (what-if switches; shows that the universes PAIR /
+        # HIST and the independence law are not vacuous).  The four runs are independent: run them side by side.
+        from concurrent.futures import ThreadPoolExecutor
+
+        demos = ["Demo_ParserStruct_asis", "Demo_ParserStruct_key_linebreaks", "Demo_ParserStruct_key_trims",
+                 "Demo_ParserStruct_key_kind"]
+        if os.environ.get("C03_OLD"):  # TIMING-TOGGLE
+            demos = demos[:1]  # TIMING-TOGGLE
+        with ThreadPoolExecutor(len(demos)) as ex:
+            rs = list(ex.map(lambda n: tlc("Gen_ParserStruct", n + ".cfg", workers=1, check=False, env={"TAGS_FILE": tags_file}), demos))
+        for name, demo in zip(demos, rs):
+            o.add_tlc(f"{name} (counterexample expected)", demo)
+            o.extra["demo_" + name[len("Demo_ParserStruct_"):] + "_counterexample"] = bool(demo.invariant_violated)
+            if not demo.invariant_violated:
+                raise common.TLCError(f"{name} lost its counterexample")
         o.exhaustive = True
         for u, a in agg["per"].items():
             if a["sample"]:
@@ -359,11 +462,16 @@ def replay(path: str) -> int:
     common.use_repo()
     with Scratch("c03r-") as d:
         ctx = ptree2.new_ctx(d)
-        t = ptree2.node(ptree2.parse(ctx, c["text"]))
+        ctx.start_page("Pg")
+        for op, tx in c.get("history", []):      # what the page held before (same page, no start_page in between)
+            (ctx.expand if op == "expand" else ctx.parse)(tx)
+        t = ptree2.node(ctx.parse(c["text"]))
         ctx.db_conn.close()
         tags_file = str(d / "tags.json")
         Path(tags_file).write_text(json.dumps(tag_table()))
         _, bad = trace_items([], tags_file, [(0, c["page"], t)])
+    for op, tx in c.get("history", []):
+        print("before  :", f"{op}({tx!r})")
     print("text    :", repr(c["text"]))
     print("expected:\n" + c["expected"])
     print("got now :\n" + ptree2.show(t))
